@@ -176,6 +176,7 @@ var racePrograms = []raceProg{
 		}
 		spawn(rep(80, add), rep(80, func(i int) { add(100 + i) }),
 			rep(15, func(i int) { q.Purge(); pq.Purge(); q.NumPending() }),
+			rep(15, func(i int) { pq.Purge(); q.Purge(); pq.NumPending() }),
 			rep(60, func(i int) {
 				mu.Lock()
 				var h varmq.EnqueuedResultJob[int]
